@@ -75,6 +75,8 @@ fn step_f64(m: &Matrix<f64>, op: &Value) -> Option<StepOut<f64>> {
         "norm_1" => o.ri = Some(f2(m.norm_1())),
         "norm_inf" => o.ri = Some(f2(m.norm_inf())),
         "norm_max" => o.ri = Some(f2(m.norm_max())),
+        "lmul_scalar" => o.rm = Some((geti(op, "s") as f64) * m.clone()),
+        "empty" => o.rm = Some(Matrix::<f64>::empty()),
         "norm_units" => {
             // independent evaluation of the entrywise p-norm
             let p = geti(op, "p") as f64;
@@ -130,7 +132,7 @@ pub fn run<T: Elem>(case: &Value, out: &mut Out) {
         let name = gets(op, "op");
         let pre_re = jmat(&m, Part::Re); let pre_im = jmat(&m, Part::Im);
         // f64-only norms
-        if matches!(name, "norm_1" | "norm_inf" | "norm_max" | "norm_units") {
+        if matches!(name, "norm_1" | "norm_inf" | "norm_max" | "norm_units" | "lmul_scalar" | "empty") {
             if T::NAME == "f64" {
                 let mf = mat_from::<f64>(&pre_re, None);
                 let so = step_f64(&mf, op).unwrap();
@@ -229,7 +231,7 @@ fn rand_op(rng: &mut StdRng, r: usize, c: usize, cx: bool, f64ty: bool, doubling
             41 => { o = json!({"op": "new", "nr": rng.gen_range(0..=8), "nc": rng.gen_range(0..=8), "x": small(rng)}); if cx { o["xi"] = json!(small(rng)); } }
             42 => { if !f64ty { continue; } o = json!({"op": "norm_1"}); }
             43 => { if !f64ty { continue; } o = json!({"op": "norm_inf"}); }
-            44 => { if !f64ty { continue; } o = json!({"op": "norm_max"}); }
+            44 => { if !f64ty { continue; } o = if rng.gen_bool(0.5) { json!({"op": "norm_max"}) } else if rng.gen_bool(0.8) { json!({"op": "lmul_scalar", "s": rng.gen_range(-3..=3)}) } else { json!({"op": "empty"}) }; }
             _ => { if !f64ty { continue; } let frob = rng.gen_bool(0.3); o = json!({"op": "norm_units", "p": rng.gen_range(1..=6), "frob": if frob { 1 } else { 0 }}); }
         }
         return (o, nr, nc);
